@@ -211,10 +211,7 @@ def rule_similarity(ctx, m):
                   'a zero distance must map to the maximal similarity 1 (default scale); the calculus gives [%s, %s]' % (v0.lo, v0.hi), f.line)
         ctx.sample({'arm': name, 'S': fmt(e), 'abstract value': repr(v)})
     # reported-parameter completeness
-    ret = [s for s in f.body if s.k == 'if' and fmt(s.cond) == 'return_params']
-    reported = set()
-    if ret and ret[0].then and ret[0].then[0].k == 'return' and ret[0].then[0].value[0] == 'tuple':
-        reported = {x[1] for x in ret[0].then[0].value[1] if x[0] == 'var'}
+    reported = _reported(f)
     derived = {}
     for name, body in arms.items():
         for s in walk_stmts(body):
@@ -253,12 +250,24 @@ def rule_similarity(ctx, m):
                 ctx.check(v.lo >= -1e-12 and v.hi <= 1 + 1e-12, 'R-MON', file, 'squash', 'range arm %s%s' % (name, ' base' if based else ''),
                           'the squashing function must map into [0, 1]; the calculus gives [%s, %s]' % (v.lo, v.hi), g.line)
             ctx.sample({'arm': 'squash ' + name, 'result': fmt(e), 'abstract value': repr(v)})
-    ret = [s for s in g.body if s.k == 'if' and fmt(s.cond) == 'return_params']
-    reported = set()
-    if ret and ret[0].then and ret[0].then[0].value[0] == 'tuple':
-        reported = {x[1] for x in ret[0].then[0].value[1] if x[0] == 'var'}
+    reported = _reported(g)
     ctx.check({'r', 'x0'} <= reported, 'R-MON', file, 'squash', 'reported parameters', 'squash derives r and x0 from the data; both must be reported', g.line)
     _doc_formulas(ctx, file, g, arms, 'result', {'X'})
+
+
+def _reported(f, flag='return_params'):
+    """Names returned next to the result on the paths on which the `return_params` flag is set."""
+    from ..symexec import Exec, Env
+    ex = Exec()
+    ex.run(f.body, Env())
+    out = set()
+    for path, value, st in ex.returns:
+        if st.k != 'return' or st.value is None or st.value[0] != 'tuple':
+            continue
+        if any(c == ('un', 'not', ('var', flag)) for c in path):
+            continue
+        out |= {x[1] for x in st.value[1] if x[0] == 'var'}
+    return out
 
 
 def _doc_formulas(ctx, file, f, arms, target, free):
@@ -434,6 +443,21 @@ def _blocks_with(stmts, names):
     yield from walk(stmts)
 
 
+def _split_conds(a, b):
+    """Pairs (a', b') with the conditional expressions of a and b resolved consistently (both take the same branch of the same test)."""
+    c = next((x for e in (a, b) for x in walk_expr(e) if x[0] == 'cond'), None)
+    if c is None:
+        return [(a, b)]
+
+    def pick(e, branch):
+        if not isinstance(e, tuple):
+            return e
+        if len(e) == 4 and e[0] == 'cond' and e[1] == c[1]:
+            return pick(e[2 if branch else 3], branch)
+        return tuple(pick(x, branch) for x in e)
+    return _split_conds(pick(a, True), pick(b, True)) + _split_conds(pick(a, False), pick(b, False))
+
+
 def rule_squash_zero_offset(ctx, m):
     """keep_sign subtracts Xz, the value of the same squashing function at 0: in every branch Xz must be `result` with X := 0."""
     sp = _sympy()
@@ -444,9 +468,8 @@ def rule_squash_zero_offset(ctx, m):
     symtab = {'r': sp.Symbol('r', positive=True), 'x0': sp.Symbol('x0', real=True), 'base': sp.Symbol('base', positive=True), 'X': sp.Symbol('X', real=True)}
     n = 0
     for name, body in sorted(_chain(g, 'method').items()):
-        for got in _blocks_with(body, ('result', 'Xz')):
+        for got, res, xz in [(g_, r_, x_) for g_ in _blocks_with(body, ('result', 'Xz')) for r_, x_ in _split_conds(g_['result'].value, g_['Xz'].value)]:
             n += 1
-            res, xz = got['result'].value, got['Xz'].value
             based = any(x == ('var', 'base') for x in walk_expr(res))
             inst = 'squash[%s%s] Xz = result at X = 0' % (name, ' base' if based else '')
             try:
